@@ -225,3 +225,7 @@ package unknown
 //@   loop 1 invariant 0 <= offset && offset <= len(rbuf) && wrote(offset)
 //@   loop 1 invariant forall k int :: old(wpos()) <= k && k < wpos() ==> wbyte(k) == nb(wbool(k), rbuf[k - old(wpos())])
 //@   loop 1 decreases len(rbuf) - offset
+
+//@ func (binaryProtocol) ReadBinary(buf []byte) (value []byte, length int, err error)
+//@   ensures 0 <= length && length <= len(buf)
+//@   ensures err == nil ==> length == 4 + len(value) && len(value) == bepack(buf, 0, 4)
